@@ -10,7 +10,8 @@ REDIRECTS = ["http://bit.example.com/r?url=http%3A%2F%2Fwww.lemonde.fr%2Fa%2Find
              "http://example.com/redirect?next=/local/path&k=v", "https://www.google.com/url?q=http://m.example.co.uk/p%3Fa%3D1",
              "http://cdn.ampproject.org/c/s/www.example.com/article.amp"]
 BARE = ["www.amp-madame.lefigaro.fr", "amp-www.example.com", "m.amp-example.co.uk", "http://www.amp-example.com/x", "amp.amp-example.com",
-        "www.lemonde.fr", "fr-FR.facebook.com", "m.example.co.uk", "amp-example.com", "FR.Example.COM", "xn--caf-dma.fr", "mobile.www2.example.org", "es.example.com"]
+        "www.lemonde.fr", "fr-FR.facebook.com", "m.example.co.uk", "amp-example.com", "FR.Example.COM", "xn--caf-dma.fr", "mobile.www2.example.org", "es.example.com",
+        "amp-xn--caf-dma.com", "www.AMP-xn--caf-dma.fr", "http://amp-caf\u00e9.com/x"]      # punycode / IDN behind an amp- prefix
 
 
 def execute(case):
